@@ -59,3 +59,105 @@ def same_json(a, b):
     if isinstance(a, dict) and isinstance(b, dict):
         return set(a) == set(b) and all(same_json(a[k], b[k]) for k in a)
     return False
+
+
+# ---------------------------------------------------------------------------------------------------------------
+# Per-job reference evaluator for the documented filter grammar (C06/C07). Direct recursive evaluation on ONE job's
+# own {'sp': ..., 'doc': ...}; no index, no other jobs.
+_MISSING = object()
+_TYPES = {"int": int, "float": float, "bool": bool, "str": str, "list": (list, tuple), "null": type(None)}
+_OPS = ("$eq", "$ne", "$gt", "$gte", "$lt", "$lte", "$in", "$nin", "$exists", "$regex", "$type", "$near")
+
+
+def _norm(v):
+    """lists and tuples are the same JSON value"""
+    if isinstance(v, (list, tuple)):
+        return tuple(_norm(x) for x in v)
+    return v
+
+
+def _resolve(doc, path):
+    cur = doc
+    for p in path:
+        if isinstance(cur, dict) and p in cur:
+            cur = cur[p]
+        else:
+            return _MISSING
+    return cur
+
+
+def _ns_path(key):
+    parts = key.split(".")
+    if parts[0] not in ("sp", "doc"):
+        parts = ["sp"] + parts
+    return parts
+
+
+def match(jobdoc, flt):
+    """True iff the job (its own state point under 'sp' and document under 'doc') satisfies the filter."""
+    import math, re
+    for key, val in flt.items():
+        if key == "$and":
+            if not all(match(jobdoc, f) for f in val):
+                return False
+        elif key == "$or":
+            if not any(match(jobdoc, f) for f in val):
+                return False
+        elif key == "$not":
+            if match(jobdoc, val):
+                return False
+        else:
+            if not _match_key(jobdoc, _ns_path(key), val):
+                return False
+    return True
+
+
+def _match_key(jobdoc, path, val):
+    import math, re
+    if path[-1].startswith("$"):
+        return _apply_op(jobdoc, path[:-1], path[-1], val)
+    if isinstance(val, dict) and val:
+        return all(_match_key(jobdoc, path + k.split("."), v) for k, v in val.items())
+    have = _resolve(jobdoc, path)
+    if have is _MISSING:
+        return False
+    if isinstance(have, dict):
+        return isinstance(val, dict) and not val and not have and False  # mapping values are never equal to a scalar/list operand
+    return _norm(have) == _norm(val)
+
+
+def _apply_op(jobdoc, path, op, arg):
+    import math, re
+    have = _resolve(jobdoc, path)
+    if op == "$exists":
+        return (have is not _MISSING) == bool(arg)
+    if have is _MISSING:
+        return False
+    isdict = isinstance(have, dict)
+    h = _norm(have)
+    if op == "$eq":
+        return (not isdict) and h == _norm(arg)
+    if op == "$ne":
+        return isdict or h != _norm(arg)
+    if op in ("$gt", "$gte", "$lt", "$lte"):
+        a = _norm(arg)
+        return {"$gt": h > a, "$gte": h >= a, "$lt": h < a, "$lte": h <= a}[op] if not isdict else False
+    if op == "$in":
+        return (not isdict) and any(h == _norm(x) for x in arg)
+    if op == "$nin":
+        return isdict or not any(h == _norm(x) for x in arg)
+    if op == "$regex":
+        return isinstance(have, str) and re.search(arg, have) is not None
+    if op == "$type":
+        return (not isdict) and isinstance(have, _TYPES[arg])
+    if op == "$near":
+        rel, ab = 1e-09, 0.0
+        if isinstance(arg, (list, tuple)):
+            if len(arg) == 1:
+                arg = arg[0]
+            elif len(arg) == 2:
+                arg, rel = arg
+            else:
+                arg, rel, ab = arg
+        return (not isdict) and math.isclose(have, float(arg), rel_tol=float(rel), abs_tol=float(ab))
+    raise KeyError(op)
